@@ -288,8 +288,9 @@ def _standin(vc):
         bound="12 edit operations (drop_elements, drop_elements_simple, drop_lines, drop_trafos, drop_buses, reindex_elements x3, "
               "create_continuous_elements_index, select_subnet x2, drop_inactive_elements) on example_multivoltage with groups (index and "
               "reference column), t3 switch, costs on four element types (two sharing an element number), measurements on branches and bus elements; "
-              "the listed known finding (result table index after reindex_elements) is excluded",
-        script="from replaylib.references import main\nmain()\n"))
+              "the listed known finding (result table index after reindex_elements) is excluded; five bus edits on a 4-bus network with svc / ssc / "
+              "tcsc, drop_buses on a net with a ConstControl, replace_zero_branches_with_switches on impedances",
+        script="from replaylib import run_all\nfrom replaylib.references import main, main_facts\nrun_all(main, main_facts)\n", timeout=900))
 
 
 def run_inner_branches(vc):
